@@ -76,8 +76,6 @@ module Z :
   val pos_div_eucl : positive -> z -> z * z
 
   val div_eucl : z -> z -> z * z
-
-  val div : z -> z -> z
  end
 
 type pstate = { _prev : z option; _delta : z }
